@@ -247,6 +247,10 @@ func runC01(c *Ctx) {
 	c.Rule("C01-D4", "dispatch key: sockets are looked up by the decoded header's namespace, handlers by the decoded event name, and onEvent runs once per handler returned; the parser hands finish() the header and event name that parseHeader produced", 10)
 	dispatchKeys(c, "C01-D4")
 
+	c.Rule("C01-D6", "dispatch iterates a snapshot: the handler list handed to the dispatch loop is a fresh copy, so a handler that registers/removes handlers mid-dispatch cannot make another handler miss this event or receive an earlier one", 2)
+	freshResult(c, "C01-D6", "sio.eventHandlerStore.getAll", p.Fn("sio", "eventHandlerStore.getAll"))
+	freshResult(c, "C01-D6", "sio.handlerStore.getAll", p.Fn("sio", "handlerStore.getAll"))
+
 	c.Rule("C01-D5", "read limits agree with the announced limit (shared with C13-D2/D4): every websocket connection gets SetReadLimit on all paths, the announced maxPayload is the enforced field", 4)
 	websocketReadLimit(c, "C01-D5")
 	announcedEqualsEnforced(c, "C01-D5")
